@@ -144,6 +144,13 @@ def g_run(rng, k, n):
     """n slots of one type: constant or arithmetic"""
     if k in "ih" and rng.random() < 0.6:
         bits = 32 if k == "i" else 64
+        if rng.random() < 0.25:
+            # near the ends of the type, large steps: runs that would wrap or overflow the span
+            hi = (1 << (bits - 1)) - 1
+            start = rng.choice([hi - rng.randint(0, 6), -hi - 1 + rng.randint(0, 6), -hi - 1, rng.randint(-hi, hi)])
+            step = rng.choice([1, -1, 1 << (bits - 3), -(1 << (bits - 3)), 1 << (bits - 2), rng.randint(-hi, hi) | 1])
+            wrapv = lambda v: (v + (1 << (bits - 1))) % (1 << bits) - (1 << (bits - 1))
+            return ["%s:%d" % (k, wrapv(start + j * step)) for j in range(n)]
         start = rng.randint(-1000, 1000)
         step = rng.choice([1, -1, 2, -2, 3, 10, -7, 100])
         return ["%s:%d" % (k, start + j * step) for j in range(n)]
@@ -395,11 +402,6 @@ def classify(case, impl, failure):
         return "signed-zero-run"
     if f[3] != "0":
         # the side conditions of C10_roundtrip_any_partial (PrettyProofs/ListProofs goodc)
-        for v in vals:
-            if v.startswith("i:") and abs(int(v[2:])) >= 1 << 30:
-                return "int-run-span-overflow"
-            if v.startswith("h:") and abs(int(v[2:])) >= 1 << 62:
-                return "int-run-span-overflow"
         for v in vals:
             if v[:2] in ("s:", "S:") and "2e2e2e" in v[2:] and bytes.fromhex(v[2:]).find(b"...") >= 0:
                 return "ellipsis-in-string-before-range"
